@@ -7,6 +7,7 @@
   are nested in the parent's span and ordered.  With `no_location` every `loc` is `none`.
 -/
 import PyGqlModel.Props.C01_parse
+import PyGqlModel.Lemmas.ParseErase3
 namespace PyGql.Props.C02
 open PyGql PyGql.Ast PyGql.Parse PyGql.Spec PyGql.Props.C01
 
@@ -24,12 +25,6 @@ theorem span_spec_value (fl : Flags) (toks : List Tok) (v : Value) (h : parseVal
 /-- FULL STATEMENT for documents -/
 def SpanSpecDocument : Prop :=
   ∀ (fl : Flags) (toks : List Tok) (d : Document), parseDocument fl toks = .ok d → Item.SpansAll fl [documentV d] toks
-
-/-- `span_spec` for values and types (kept from phase 1); documents: `span_spec_document` below (full). -/
-theorem span_spec_partial (fl : Flags) (toks : List Tok) :
-    (∀ v, parseValue fl toks = .ok v → Item.SpansAll fl [p .sof, valueV v, p .eof] toks) ∧
-    (∀ t, parseType fl toks = .ok t → Item.SpansAll fl [p .sof, typeV t, p .eof] toks) :=
-  ⟨span_spec_value fl toks, span_spec_type fl toks⟩
 
 /-- the reduction of the document statement to C01's: spans come for free from soundness, for EVERY view -/
 theorem span_spec_of_sound (hs : ParseSoundDocument) : SpanSpecDocument :=
@@ -105,13 +100,37 @@ theorem noloc_all_none_document (fl : Flags) (hf : fl.noLocation = true) (toks :
   have := checkAll_noLoc fl hf _ _ _ _ _ hm
   simp [noLocAll] at this; exact this
 
-/-- A CONSEQUENCE of the full `noloc_erasure` statement ("the `no_location` tree is the located tree with every
-    `loc` erased"): accept/reject does not depend on `no_location`.  NOT PROVED (kept visible): it needs an `erase`
-    function on the AST and `parse {fl with noLocation := true} toks = (parse fl toks).map erase`.  Proved above:
-    every `loc` is absent (`noloc_all_none`).  The direct oracle compares the two `to_dict()`s on every accepted
-    input (corr/C02_spans.py `check_noloc`). -/
+/-- A consequence of `noloc_erasure` (proved below as `noloc_acceptance`): accept/reject does not depend on
+    `no_location`. -/
 def NolocAcceptanceStatement : Prop :=
   ∀ (fl : Flags) (toks : List Tok), (parseType { fl with noLocation := true } toks).toBool = (parseType fl toks).toBool
+
+/-! ### `noloc_erasure`: the equation -/
+
+/-- `no_location=True` changes NOTHING but the positions: for every token list and every setting of the other flags,
+    `parse(…, no_location=True)` is `parse(…)` with every `loc` erased — same acceptance, same tree up to `loc`. -/
+theorem noloc_erasure (fl : Flags) (toks : List Tok) :
+    parseDocument { fl with noLocation := true } toks = (parseDocument fl toks).map Document.erase :=
+  runAll_E _ _ _ (parseDocumentP_E fl) toks
+
+theorem noloc_erasure_value (fl : Flags) (toks : List Tok) :
+    parseValue { fl with noLocation := true } toks = (parseValue fl toks).map Value.erase :=
+  runAll_E _ _ _ (parseValueP_E fl) toks
+
+theorem noloc_erasure_type (fl : Flags) (toks : List Tok) :
+    parseType { fl with noLocation := true } toks = (parseType fl toks).map TypeRef.erase :=
+  runAll_E _ _ _ (parseTypeP_E fl) toks
+
+/-- accept/reject does not depend on `no_location` (the statement kept visible since phase 1) -/
+theorem noloc_acceptance : NolocAcceptanceStatement := by
+  intro fl toks
+  rw [noloc_erasure_type]
+  cases parseType fl toks <;> rfl
+
+theorem noloc_acceptance_document (fl : Flags) (toks : List Tok) :
+    (parseDocument { fl with noLocation := true } toks).toBool = (parseDocument fl toks).toBool := by
+  rw [noloc_erasure]
+  cases parseDocument fl toks <;> rfl
 
 /-! ### non-vacuity -/
 private def tk (k : TokKind) (s e : Nat) (v : Text := []) : Tok := { kind := k, start := s, stop := e, value := v }
